@@ -150,6 +150,7 @@ class EV(BaseSimObj):
             None.
         """
         self._energy_delivered = 0
+        self._current_charging_rate = 0
         self._battery.reset()
 
     def _to_dict(
